@@ -431,7 +431,6 @@ class Node:
 
     def _patch_instance(self):
         s = self.supvisors
-        s.stats_collector = None
         self.publisher = PubRecorder(self)
         # the proxy server created by the real RpcHandler already uses the simulated proxy class (klass patched)
         # supervisor namespace: restart / shutdown must not act on the process
@@ -596,6 +595,42 @@ def patch_environment(clock_holder):
             return '127.0.0.1', '255.0.0.0'
         return f'10.0.0.{cl.nodes[cl.current].host}', '255.255.255.0'
     mapper.get_interface_info = get_interface_info
+
+    # statistics collector: no OS process, no pipes (a pipe nobody reads blocks the main thread once full)
+    import supvisors.statscollector as statscollector
+
+    class SimCollector:
+        def __init__(self, supvisors):
+            self.pids = {}
+            self.started = False
+
+        def start(self):
+            self.started = True
+
+        def stop(self):
+            self.started = False
+
+        def alive(self):
+            pass
+
+        def send_pid(self, namespec, pid):
+            self.pids[namespec] = pid
+
+        def get_host_stats(self):
+            return []
+
+        def get_process_stats(self):
+            return []
+
+        def enable_host(self, *a):
+            pass
+
+        def enable_process(self, *a):
+            pass
+
+        def update_collecting_period(self, *a):
+            pass
+    statscollector.StatisticsCollectorProcess = SimCollector
 
     # external publisher factory
     def create_external_publisher(supvisors):
